@@ -153,9 +153,23 @@ def line_tag(line):
     return f"{m.group(1)}.{m.group(2)}" if m else None
 
 
-def run_docutils(text, kw, S):
+def via_option_string(S):
+    """The suppress list as docutils delivers it when it is written on the command line / in docutils.conf (through the option's validator)."""
+    from docutils import frontend
+
+    from myst_parser.parsers.docutils_ import Parser
+
+    op = frontend.OptionParser(components=(Parser,), read_config_files=False)
+    vals = op.parse_args(["--myst-suppress-warnings=" + ",".join(S), "in.md"])
+    return vals.myst_suppress_warnings
+
+
+def run_docutils(text, kw, S, via="list"):
     WL.clear()
-    doc, w = drive.parse(text, source_path=os.path.join(TMP, "doc.md"), doctitle_xform=False, myst_suppress_warnings=list(S), **kw)
+    sw = list(S)
+    if via == "string" and S and all(x and "," not in x and x == x.strip() for x in S):
+        sw = via_option_string(S)
+    doc, w = drive.parse(text, source_path=os.path.join(TMP, "doc.md"), doctitle_xform=False, myst_suppress_warnings=sw, **kw)
     events = list(WL.events)
     return doc, w, events
 
@@ -185,7 +199,9 @@ def eval_docutils(ctx, case):
     detail = {"text": text, "S": S}
     try:
         d0, w0, ev0 = run_docutils(text, kw, [])
-        dS, wS, evS = run_docutils(text, kw, S)
+        dS, wS, evS = run_docutils(text, kw, S, case.get("via", "list"))
+        if case.get("via") == "string":
+            ctx.count("suppress_sets_given_as_option_string")
     except Exception as e:  # noqa: BLE001
         ctx.count("no_document:" + type(e).__name__)
         return False
@@ -426,6 +442,8 @@ def run_shard(ctx):
         case = {"kind": "docutils", "triggers": trig, "front": R.choice([None, None, None] + list(FRONT)), "config": [c for c in CONFIG_TRIGGERS if R.random() < 0.2]}
         _, _, exp = build(case)
         case["S"] = rand_S(R, exp)
+        if i % 3 == 1:
+            case["via"] = "string"  # the list as the command line / docutils.conf delivers it
         nt = eval_case(ctx, case)
         ctx.case(repr(case), bool(nt))
         if i < 2:
